@@ -67,5 +67,65 @@ func ReservationAcrossRestart(sc sim.Scenario, h *sim.History) []Problem {
 			}
 		}
 	}
+	// (c) the converse for what is visibly in flight: a call whose handler is
+	// parked at a quiescent point of a connection that nothing has ended yet
+	// has its id reserved - a delivery left over from the previous connection
+	// must not have released it
+	type sentCall struct {
+		conn int
+		id   string
+	}
+	callOfK := map[int]sentCall{}
+	kUses := map[int]int{}
+	for _, e := range h.Events {
+		if e.Kind != "sending" {
+			continue
+		}
+		var ms []json.RawMessage
+		if json.Unmarshal([]byte(e.Data), &ms) != nil {
+			ms = []json.RawMessage{json.RawMessage(e.Data)}
+		}
+		for _, m := range ms {
+			var r struct {
+				ID     json.RawMessage `json:"id"`
+				Method string          `json:"method"`
+				Params struct {
+					K *int `json:"k"`
+				} `json:"params"`
+			}
+			if json.Unmarshal(m, &r) != nil || len(r.ID) == 0 || string(r.ID) == "null" || r.Params.K == nil || r.Method == "" {
+				continue
+			}
+			kUses[*r.Params.K]++
+			callOfK[*r.Params.K] = sentCall{e.Conn, string(r.ID)}
+		}
+	}
+	conn = 1
+	ended := map[int]bool{}
+	for _, e := range h.Events {
+		switch e.Kind {
+		case "restart":
+			conn++
+		case "stop", "peerclose", "recvfault", "sendfault", "epilogue":
+			ended[conn] = true
+		case "quiesce":
+			if e.Snap == nil || ended[conn] || !e.Snap.Running {
+				continue
+			}
+			reserved := map[string]bool{}
+			for _, id := range e.Snap.Reserved {
+				reserved[id] = true
+			}
+			for _, k := range e.Snap.Parked {
+				c, ok := callOfK[k]
+				if !ok || kUses[k] != 1 || c.conn != conn || sentIDs[conn][c.id] != 1 {
+					continue
+				}
+				if !reserved[c.id] {
+					probs = append(probs, Problem{Sig: "C07/id-not-reserved-while-in-flight", Msg: fmt.Sprintf("at the quiescent point #%d (connection %d) the handler of call id %s (nonce %d) is running, yet the id is not reserved (reserved: %v)", e.Seq, conn, c.id, k, e.Snap.Reserved)})
+				}
+			}
+		}
+	}
 	return probs
 }
